@@ -327,6 +327,11 @@ def mk_cmp(pyop: str, a, b):
     if pyop == 'notin':
         return mk_not(mk_cmp('in', a, b))
     op = {'<': 'lt', '<=': 'le', '==': 'eq', '!=': 'ne', 'is': 'is', 'in': 'in'}[pyop]
+    # a value chosen on different paths compared with a constant: the comparison of each alternative on its path
+    if tag(a) == 'phi' and is_const(b) and len(a[1]) <= 4 and any(is_const(v) for _, v in a[1]):
+        return mk_or([mk_and([g, mk_cmp(pyop, v, b)]) for g, v in a[1]])
+    if tag(b) == 'phi' and is_const(a) and len(b[1]) <= 4 and any(is_const(v) for _, v in b[1]):
+        return mk_or([mk_and([g, mk_cmp(pyop, a, v)]) for g, v in b[1]])
     if is_const(a) and is_const(b):
         r = _const_cmp(op, a[1], b[1])
         if r is not None:
@@ -335,6 +340,10 @@ def mk_cmp(pyop: str, a, b):
                                                 'or', 'not', 'bin', 'mask', 'col', 'cols', 'rows', 'vals', 'index', 'record',
                                                 'columns', 'upd'):
         return FALSE        # a value that certainly is an object (a frame, a Series, a container, ...)
+    if op == 'is' and b == NONE and tag(a) == 'sub' and tag(a[1]) == 'index':
+        return FALSE        # an index label
+    if op == 'is' and b == NONE and tag(a) == 'phi' and len(a[1]) <= 4 and any(v == NONE for _, v in a[1]):
+        return mk_or([mk_and([g, mk_cmp('is', v, NONE)]) for g, v in a[1]])
     if op == 'in' and is_const(a) and tag(b) in ('list', 'tuple', 'set') \
             and all(is_const(x) for x in b[1]):
         return C(a[1] in [x[1] for x in b[1]])
